@@ -39,8 +39,62 @@ def run(chk, repo):
     r1(chk, repo, d)
     r2(chk, repo, d)
     r4(chk, repo, d)
+    chk.doc("R06.6", "lookup hands out the map element, not a copy")
+    lookup_in_place(chk, repo)
     chk.doc("R01.9", "see R06.5")
     r9_width(chk, repo, d)
+
+
+def lookup_in_place(chk, repo):
+    """R06.6: what `with table.lookup() as (value, Else)` hands out
+    addresses the map element the kernel returned (register 0, offset 0) -
+    never the staging copy on the stack, on which an atomic add would be
+    private to one program instance and lost in the write-back"""
+    sym = "ebpfcat.hashmap.TheDict.lookup"
+    f = repo.func(sym)
+    chk.analysed(sym)
+    cfg = CFG(f)
+    rd = ReachingDefs(cfg)
+    ys = [n for n in cfg.nodes if n.expr is not None and any(
+        isinstance(x, ast.Yield) for x in walk_expr(n.expr))]
+    chk.floor("R06.6", "yields in TheDict.lookup", len(ys), 1)
+    for y in ys:
+        yv = [x for x in walk_expr(y.expr) if isinstance(x, ast.Yield)][0]
+        v = yv.value
+        if isinstance(v, ast.Tuple) and v.elts:
+            v = v.elts[0]
+        ok = isinstance(v, ast.Name)
+        why = f"yields `{unparse(v)}`"
+        if ok:
+            ds = rd.reaching(y, v.id)
+            ok = len(ds) == 1 and next(iter(ds)).kind == "assign" and match(
+                "type(self.value)()", next(iter(ds)).value) is not None
+            why = f"`{v.id}` is not a fresh object of the value's type"
+        if ok:
+            for attr in ("base_register", "addr_offset"):
+                def sets(n, _a=attr):
+                    return isinstance(n.stmt, ast.Assign) and n.kind == \
+                        "stmt" and match_stmt(f"{v.id}.{_a} = 0", n.stmt) \
+                        is not None
+                others = [n for n in cfg.nodes if isinstance(
+                    n.stmt, ast.Assign) and n.kind == "stmt" and any(
+                        match(f"{v.id}.{attr}", t) is not None
+                        for t in n.stmt.targets) and not sets(n)]
+                d0 = next(iter(ds)).node
+                if others or not cfg.must_pass(d0, sets, targets=[y]):
+                    ok = False
+                    why = (f"`{v.id}.{attr}` is not 0 on every path to the "
+                           f"yield")
+                    break
+            else:
+                why = (f"`{v.id}` = type(self.value)() with base_register "
+                       f"= 0, addr_offset = 0")
+        chk.ob("R06.6", sym, "the value handed out is the map element "
+               "itself (register 0, offset 0)", ok, y.stmt, why + (
+                   "" if ok else ": an in-place add inside the block is "
+                   "then atomic only on a private copy, and concurrent "
+                   "instances overwrite each other's sums when it is "
+                   "written back"))
 
 
 def r1(chk, repo, d):
